@@ -722,7 +722,8 @@ impl Culture for SixtyCycleDay {
 impl SixtyCycleDay {
   pub fn from_solar_day(solar_day: SolarDay) -> Self {
     let solar_year: isize = solar_day.get_year();
-    let spring_solar_day: SolarDay = SolarTerm::from_index(solar_year, 3).get_julian_day().get_solar_day();
+    let spring_term: SolarTerm = SolarTerm::from_index(solar_year, 3);
+    let spring_solar_day: SolarDay = spring_term.get_julian_day().get_solar_day();
     let lunar_day: LunarDay = solar_day.get_lunar_day();
     let mut lunar_year: LunarYear = lunar_day.get_lunar_month().get_lunar_year();
     if lunar_year.get_year() == solar_year {
@@ -736,7 +737,8 @@ impl SixtyCycleDay {
     }
     let term: SolarTerm = solar_day.get_term();
     let mut index: isize = term.get_index() as isize - 3;
-    if index < 0 && term.get_julian_day().get_solar_day().is_after(spring_solar_day) {
+    // 直接比较儒略日：公元1年1月初所在的冬至属于公元前1年，不能构造成公历日
+    if index < 0 && term.get_julian_day().get_day() > spring_term.get_julian_day().get_day() {
       index += 24;
     }
     Self {
@@ -896,7 +898,8 @@ impl Culture for SixtyCycleHour {
 impl SixtyCycleHour {
   pub fn from_solar_time(solar_time: SolarTime) -> Self {
     let solar_year: isize = solar_time.get_year();
-    let spring_solar_time: SolarTime = SolarTerm::from_index(solar_year, 3).get_julian_day().get_solar_time();
+    let spring_term: SolarTerm = SolarTerm::from_index(solar_year, 3);
+    let spring_solar_time: SolarTime = spring_term.get_julian_day().get_solar_time();
     let lunar_hour: LunarHour = solar_time.get_lunar_hour();
     let lunar_day: LunarDay = lunar_hour.get_lunar_day();
     let mut lunar_year: LunarYear = lunar_day.get_lunar_month().get_lunar_year();
@@ -911,7 +914,7 @@ impl SixtyCycleHour {
     }
     let term: SolarTerm = solar_time.get_term();
     let mut index: isize = term.get_index() as isize - 3;
-    if index < 0 && term.get_julian_day().get_solar_time().is_after(SolarTerm::from_index(solar_year, 3).get_julian_day().get_solar_time()) {
+    if index < 0 && term.get_julian_day().get_day() > spring_term.get_julian_day().get_day() {
       index += 24;
     }
     let mut d: SixtyCycle = lunar_day.get_sixty_cycle();
